@@ -26,6 +26,8 @@ Fact F_parsers : file_parser_normalises = true /\ pyproject_parser_normalises = 
 Proof. split; reflexivity. Qed.
 Lemma norm_for_eq k raw : norm_for k raw = normalize_top raw.
 Proof. unfold norm_for. destruct F_parsers as [-> ->]. now destruct k. Qed.
+Fact F_retry : retry_exceptions = ["TypeError"].
+Proof. reflexivity. Qed.
 Fact F_norm : norm_from = "-" /\ norm_to = "_".
 Proof. split; reflexivity. Qed.
 Fact F_errors : value_error_reraised = true /\ error_exit_code = 2 /\ exit_with_violations = 1 /\ exit_clean = 0.
@@ -89,9 +91,9 @@ Definition flags_off (q : quirks) : Prop := forall f, In f all_flags -> has q f 
 Lemma ideal_off : flags_off ideal.
 Proof. intros f _. reflexivity. Qed.
 
-(* every guarded option resolves to a number (or to its numeric default) *)
-Definition typed_guards (opts : list (string * dval)) (gs : list grow) (res : string -> option val) : Prop :=
-  forall o c b, In (o, c, b) gs -> as_int (if has_opt opts o then res o else None) (default_of opts o) <> None.
+(* no guarded option resolves to a non-number / the top-level values pass every guard *)
+Definition no_type_error (opts : list (string * dval)) (gs : list grow) (res : string -> option val) : Prop :=
+  guard_status opts gs res <> StType.
 
 (* what the proof needs of the vector for one case: every flag is off or cannot matter for this case *)
 Record relevant_off (q : quirks) (c : case) : Prop := {
@@ -108,7 +110,13 @@ Record relevant_off (q : quirks) (c : case) : Prop := {
   r_py : has q "pyproject_unparsable_swallowed" = false \/ p_pyproject (c_proj c) <> Unparsable;
   r_types : has q "wrong_type_swallowed" = false
             \/ (forall k raw, spec_selected c = LDoc k raw ->
-                 typed_guards (doc_opts (c_unit c)) (doc_guards (c_unit c)) (spec_res c (section_of (c_unit c) raw)));
+                 no_type_error (doc_opts (c_unit c)) (doc_guards (c_unit c)) (spec_res c (section_of (c_unit c) raw)));
+  r_retry : has q "language_block_error_retried_without_language" = false
+            \/ (forall k raw, spec_selected c = LDoc k raw ->
+                 no_type_error (doc_opts (c_unit c)) (doc_guards (c_unit c)) (spec_res c (section_of (c_unit c) raw)));
+  r_shadow : has q "invalid_top_level_value_shadowed_by_language_block" = false
+            \/ (forall k raw, spec_selected c = LDoc k raw ->
+                 guard_status (doc_opts (c_unit c)) (doc_guards (c_unit c)) (spec_res_top c (section_of (c_unit c) raw)) = StOk);
 }.
 
 Lemma in_flags_unit kind u :
@@ -129,7 +137,8 @@ Proof.
   apply smem_In in Gu.
   assert (P : forall f, In f ["repo_ignore_not_loaded[json]"; "repo_ignore_not_loaded[pyproject]"; "repo_ignore_not_loaded[--config]";
       "global_config_option_ignored"; "dry_config_option_merges_section_only";
-      "pyproject_unparsable_swallowed"; "wrong_type_swallowed"] -> has q f = false).
+      "pyproject_unparsable_swallowed"; "wrong_type_swallowed";
+      "language_block_error_retried_without_language"; "invalid_top_level_value_shadowed_by_language_block"] -> has q f = false).
   { intros f Hf. apply H. unfold all_flags. rewrite !in_app_iff. do 5 right. exact Hf. }
   constructor; try (apply H; apply in_flags_unit; [cbn [In]; tauto|exact Gu]);
     try (left; apply P; cbn [In]; tauto).
@@ -336,8 +345,8 @@ Proof.
 Qed.
 
 (* ------------------------------------------------------------------ the rule on one file *)
-Lemma check_guards_ext gs f g sw :
-  (forall o, In o (map gopt gs) -> f o = g o) -> check_guards gs f sw = check_guards gs g sw.
+Lemma check_guards_ext gs f g :
+  (forall o, In o (map gopt gs) -> f o = g o) -> check_guards gs f = check_guards gs g.
 Proof.
   induction gs as [|[[o c] b] r IH]; intros H; cbn [check_guards]; [reflexivity|].
   rewrite <- (H o) by (cbn [map gopt fst In]; now left).
@@ -359,38 +368,50 @@ Proof.
   rewrite (H x) by now left. rewrite IH; [reflexivity|]. intros a Ha. apply H. now right.
 Qed.
 
-Lemma unit_outcome_ext opts gs probes sw r1 r2 fname ms :
-  (forall o, In o (queried gs probes) -> r1 o = r2 o) ->
-  unit_outcome opts gs probes sw r1 fname ms = unit_outcome opts gs probes sw r2 fname ms.
+Lemma guard_status_ext opts gs probes r1 r2 :
+  (forall o, In o (queried gs probes) -> r1 o = r2 o) -> guard_status opts gs r1 = guard_status opts gs r2.
 Proof.
-  intros H. unfold unit_outcome, queried in *.
+  intros H. unfold guard_status. apply check_guards_ext. intros o Ho.
+  rewrite (H o); [reflexivity|]. unfold queried. apply in_or_app. now left.
+Qed.
+
+Lemma unit_body_ext opts gs probes r1 r2 fname ms :
+  (forall o, In o (queried gs probes) -> r1 o = r2 o) -> unit_body opts probes r1 fname ms = unit_body opts probes r2 fname ms.
+Proof.
+  intros H. unfold unit_body, queried in *.
   assert (H' : forall o, In o (map gopt gs ++ ["enabled"; "ignore"] ++ flat_map probe_opts probes) ->
                (if has_opt opts o then r1 o else None) = (if has_opt opts o then r2 o else None)).
   { intros o Ho. now rewrite (H o Ho). }
-  rewrite (check_guards_ext gs _ (fun o => as_int (if has_opt opts o then r2 o else None) (default_of opts o)) sw).
-  2:{ intros o Ho. rewrite H'; [reflexivity|]. apply in_or_app. now left. }
-  destruct (check_guards _ _ _); try reflexivity.
   rewrite (H' "enabled") by (apply in_or_app; right; cbn [app In]; tauto).
   rewrite (H' "ignore") by (apply in_or_app; right; cbn [app In]; tauto).
   destruct (negb _); [reflexivity|]. destruct (existsb _ _); [reflexivity|].
-  f_equal. f_equal. apply filter_ext_in'. intros p Hp. apply fires_ext. intros o Ho.
+  f_equal. apply filter_ext_in'. intros p Hp. apply fires_ext. intros o Ho.
   apply H'. apply in_or_app. right. apply in_or_app. right. apply in_flat_map. now exists p.
 Qed.
 
-Lemma check_guards_swallow_irrelevant gs ri sw :
-  (forall o c b, In (o, c, b) gs -> ri o <> None) -> check_guards gs ri sw = check_guards gs ri false.
+Lemma unit_outcome_ext opts gs probes rv rt sw ct r1 r2 t1 t2 fname ms :
+  (forall o, In o (queried gs probes) -> r1 o = r2 o) -> (forall o, In o (queried gs probes) -> t1 o = t2 o) ->
+  unit_outcome opts gs probes rv rt sw ct r1 t1 fname ms = unit_outcome opts gs probes rv rt sw ct r2 t2 fname ms.
 Proof.
-  induction gs as [|[[o c] b] r IH]; intros H; cbn [check_guards]; [reflexivity|].
-  destruct (ri o) eqn:E; [|exfalso; exact (H o c b (or_introl eq_refl) E)].
-  destruct (cmp_Z c z b); [reflexivity|]. apply IH. intros o' c' b' Hin. apply (H o' c' b'). now right.
+  intros H T. unfold unit_outcome.
+  rewrite (guard_status_ext opts gs probes r1 r2 H), (guard_status_ext opts gs probes t1 t2 T).
+  rewrite (unit_body_ext opts gs probes r1 r2 fname ms H), (unit_body_ext opts gs probes t1 t2 fname ms T).
+  reflexivity.
 Qed.
 
-Lemma unit_outcome_swallow opts gs probes sw res fname ms :
-  typed_guards opts gs res ->
-  unit_outcome opts gs probes sw res fname ms = unit_outcome opts gs probes false res fname ms.
+(* the code-side parameters coincide with the demanded ones when they are off or cannot matter *)
+Lemma unit_outcome_params opts gs probes rv rt sw ct res top fname ms :
+  rv = false ->
+  (rt = false \/ guard_status opts gs res <> StType) ->
+  (sw = false \/ guard_status opts gs res <> StType) ->
+  (ct = true \/ guard_status opts gs top = StOk) ->
+  unit_outcome opts gs probes rv rt sw ct res top fname ms = unit_outcome opts gs probes false false false true res top fname ms.
 Proof.
-  intros T. unfold unit_outcome.
-  now rewrite (check_guards_swallow_irrelevant gs _ sw T).
+  intros -> B C D. unfold unit_outcome.
+  destruct (guard_status opts gs res) eqn:E.
+  - destruct D as [->|D]; [reflexivity|]. rewrite D. now destruct ct.
+  - reflexivity.
+  - destruct B as [->|B]; [|contradiction]. destruct C as [->|C]; [reflexivity|contradiction].
 Qed.
 
 (* ------------------------------------------------------------------ section lookup under the flags *)
@@ -424,30 +445,43 @@ Proof.
   assert (Eopts : unit_opts q (c_unit c) = doc_opts (c_unit c)).
   { unfold unit_opts. rewrite (r_enabled q c R). apply (F_opts _ Gu). }
   rewrite Eopts, (F_guards _ Gu).
-  transitivity (unit_outcome (doc_opts (c_unit c)) (doc_guards (c_unit c)) (unit_probes (c_unit c)) (swallow_types q)
-                             (spec_res c (section_of (c_unit c) raw)) (c_fname c) (c_metrics c)).
-  2:{ destruct (r_types q c R) as [E|T].
-      - unfold swallow_types. now rewrite E.
-      - apply unit_outcome_swallow. exact (T k raw S). }
-  apply unit_outcome_ext. intros o Ho.
-  assert (Hol : ~ In o all_languages).
-  { pose proof (proj1 (forallb_forall _ _) (F_queried _ Gu) o Ho) as E. cbn beta in E.
-    apply smem_false_notin. now destruct (smem o all_languages). }
-  (* section *)
-  rewrite (lookup_row_section q (c_unit c) _ (r_section q c R) (r_whole q c R)
-             (normal_apply_overrides q (c_cmd c) (c_overrides c) _ (normalize_normal raw))).
-  assert (Elang : lang_opts q (c_unit c) = doc_lang_opts (c_unit c)).
-  { unfold lang_opts. rewrite (r_lang q c R). apply (F_lang _ Gu). }
-  rewrite Elang. unfold spec_res.
+  transitivity (unit_outcome (doc_opts (c_unit c)) (doc_guards (c_unit c)) (unit_probes (c_unit c))
+                             (retries q (c_unit c) "ValueError") (retries q (c_unit c) "TypeError") (swallow_types q) (checks_top q)
+                             (spec_res c (section_of (c_unit c) raw)) (spec_res_top c (section_of (c_unit c) raw))
+                             (c_fname c) (c_metrics c)).
+  2:{ apply unit_outcome_params.
+      - unfold retries. rewrite F_retry. cbn [smem String.eqb]. now rewrite andb_false_r; destruct (has q _).
+      - destruct (r_retry q c R) as [E|T]; [left; unfold retries; now rewrite E|right; exact (T k raw S)].
+      - destruct (r_types q c R) as [E|T]; [left; unfold swallow_types; now rewrite E|right; exact (T k raw S)].
+      - destruct (r_shadow q c R) as [E|T]; [left; unfold checks_top; now rewrite E|right; exact (T k raw S)]. }
   assert (Esect : as_map (get (norm_key (c_unit c)) (normalize_top raw)) = section_of (c_unit c) raw).
   { unfold section_of. now rewrite get_normalize. }
-  apply orb_true_iff in Gc. destruct Gc as [Ec|Ec].
-  - apply String.eqb_eq in Ec.
-    destruct (r_cli q c R) as [Hf|Hnil].
-    + rewrite Ec in *. rewrite (overrides_lookup q (c_unit c) _ _ o (c_overrides c) Hf Gu L Hol). now rewrite Esect.
-    + rewrite Hnil. cbn [apply_overrides fold_left spec_cli]. now rewrite Esect.
-  - apply andb_true_iff in Ec. destruct Ec as [_ Ec]. destruct (c_overrides c); [|discriminate].
-    cbn [apply_overrides fold_left spec_cli]. now rewrite Esect.
+  assert (Elang : lang_opts q (c_unit c) = doc_lang_opts (c_unit c)).
+  { unfold lang_opts. rewrite (r_lang q c R). apply (F_lang _ Gu). }
+  assert (Hsec := lookup_row_section q (c_unit c) _ (r_section q c R) (r_whole q c R)
+             (normal_apply_overrides q (c_cmd c) (c_overrides c) _ (normalize_normal raw))).
+  rewrite Hsec, Elang.
+  assert (Hnl : forall o,
+     In o (queried (doc_guards (c_unit c)) (unit_probes (c_unit c))) -> ~ In o all_languages).
+  { intros o Ho. pose proof (proj1 (forallb_forall _ _) (F_queried _ Gu) o Ho) as E. cbn beta in E.
+    apply smem_false_notin. now destruct (smem o all_languages). }
+  assert (Hres : forall lopts o, In o (queried (doc_guards (c_unit c)) (unit_probes (c_unit c))) ->
+     opt_lookup lopts (as_map (get (norm_key (c_unit c)) (apply_overrides q cli_overrides (c_cmd c) (c_overrides c) (normalize_top raw)))) (c_lang c) o
+     = match spec_cli (c_cmd c) (c_overrides c) o with
+       | Some z => Some (VInt z)
+       | None => opt_lookup lopts (section_of (c_unit c) raw) (c_lang c) o
+       end).
+  { intros lopts o Ho. pose proof (Hnl o Ho) as Hol.
+    apply orb_true_iff in Gc. destruct Gc as [Ec|Ec].
+    - apply String.eqb_eq in Ec.
+      destruct (r_cli q c R) as [Hf|Hnil].
+      + rewrite Ec in *. rewrite (overrides_lookup q (c_unit c) _ _ o (c_overrides c) Hf Gu L Hol). now rewrite Esect.
+      + rewrite Hnil. cbn [apply_overrides fold_left spec_cli]. now rewrite Esect.
+    - apply andb_true_iff in Ec. destruct Ec as [_ Ec]. destruct (c_overrides c); [|discriminate].
+      cbn [apply_overrides fold_left spec_cli]. now rewrite Esect. }
+  apply unit_outcome_ext; intros o Ho.
+  - unfold spec_res. apply Hres. exact Ho.
+  - unfold spec_res_top. rewrite (Hres [] o Ho). reflexivity.
 Qed.
 
 Theorem run_exact q c :
